@@ -164,3 +164,7 @@ mod tests {
         assert!(res.is_err());
     }
 }
+
+#[cfg(kani)]
+#[path = "/verif/harness/crypto_aespoly1305.rs"]
+pub(crate) mod verif_harness;
